@@ -197,6 +197,11 @@ def docstring(
                 break
             # prev_nl = next_nl
             # current_indent:int = count_iter_items(takewhile(str.isspace, line))
+            prev_nl = next_nl + 1
+            next_nl = candidate_doc_str.find("\n", prev_nl)
+        if next_nl == -1:
+            # ran off the end: the remainder is the last line
+            line, next_nl = candidate_doc_str[prev_nl:], len(candidate_doc_str)
 
     if indent_level > current_indent:
         _tab = (indent_level - current_indent) * tab
